@@ -2,15 +2,22 @@ import TinysetModel.Proofs.PropsAux
 import TinysetModel.Proofs.InlineSpec
 import TinysetModel.Proofs.Demo
 import TinysetModel.Proofs.Consts
+import TinysetModel.Proofs.AllocProj
+import TinysetModel.Proofs.AllocProgram
 /-! C06 — memory safety under any conforming allocator: the LOGIC part.
 
 SCOPE.  The model is functional: a heap block is an `Array Nat` inside `Rp.heap sz cap bits a`; there are no
-addresses, no `alloc`/`dealloc` calls and no bytes.  Byte-level pointer behaviour (each block released exactly
-once with the layout it was requested with, no access outside a live block, no leak) is therefore OUTSIDE the
-model and is checked by the harness's instrumented `#[global_allocator]` (guard bytes, quarantine, minimal
-alignment, cross-check of the header `cap` against the allocator's record).
+addresses and no bytes.  What the model DOES contain since `Model/Alloc.lean` is the crate's own allocator
+traffic: for every operation, the `alloc_zeroed` / `dealloc` / `realloc` calls it makes, with byte sizes, in
+program order (section 3 below: every program over any number of sets makes only legal calls — each release or
+resize names a live block with the size it was requested with —, the live blocks are at every point exactly the
+blocks of the live sets, and nothing is live once every set and iterator is dropped).  The harness records the
+real calls of every operation and the driver compares them with this reading, call by call.
+Still OUTSIDE the model and checked by the harness's instrumented `#[global_allocator]` only (guard bytes,
+quarantine, minimal alignment): addresses (that the block released is the very block obtained, not another of
+the same size), and accesses outside a live block.
 
-What IS proved here are the two facts of the set logic on which that behaviour rests:
+Also proved are the two facts of the set logic on which the byte-level behaviour rests:
 1. *tag coherence*: every inline-vs-pointer test in the current source (`Gen.tagMasks64/32`, read off the
    source by the translator) uses a mask that is below the alignment the block layout requests, an inline
    word is never 0 modulo `mask + 1` (never mistaken for a pointer), and an address that is a multiple of the
@@ -108,6 +115,105 @@ theorem with_capacity_of_wf (ok : CfgOK c) {r : Rp} (wf : WF c r) : WF c (withCa
 theorem clone_wf {r : Rp} (wf : WF c r) : WF c (clone r) ∧ capacity (clone r) = capacity r := ⟨wf, rfl⟩
 
 end generic
+
+/-! ### 3. the allocator calls of every operation, history and program -/
+
+section calls
+variable {c : Cfg} {D : Type}
+
+/-- the reading with events is the operation itself: forgetting the events of `insertE` gives `insert`, for every
+input, generator state and fuel, errors included (likewise `remove`, `collect`, `extend`, the operators) -/
+theorem events_of_the_same_run (c : Cfg) (fresh : Bool) (g : Rng D) (fuel : Nat) (r : Rp) (e : Nat) (d : D) :
+    dropEv2 (insertE c fresh g fuel r e d) = insert c g fuel r e d ∧
+    dropEv2 (removeE c fresh g fuel r e d) = remove c g fuel r e d :=
+  ⟨insertE_proj c fresh g fuel r e d, removeE_proj c fresh g fuel r e d⟩
+theorem events_of_the_same_run_bulk (c : Cfg) (fresh : Bool) (g : Rng D) (fuel : Nat) (r : Rp) (xs : List Nat) (d : D) :
+    dropEv1 (fromIterE c fresh g fuel xs d) = fromIter c g fuel xs d ∧
+    dropEv1 (extendE c fresh g fuel r xs d) = extend c g fuel r xs d :=
+  ⟨fromIterE_proj c fresh g fuel xs d, extendE_proj c fresh g fuel r xs d⟩
+theorem events_of_the_same_run_operators (c : Cfg) (fresh : Bool) (g : Rng D) (fuel : Nat) (a b : Rp) (d : D) :
+    dropEv1 (unionRefE c fresh g fuel a b d) = unionRef c g fuel a b d ∧
+    dropEv1 (unionOwnE c fresh g fuel a b d) = unionOwn c g fuel a b d ∧
+    dropEv1 (diffRefE c fresh g fuel a b d) = diffRef c g fuel a b d ∧
+    dropEv1 (diffOwnE c fresh g fuel a b d) = diffOwn c g fuel a b d :=
+  ⟨unionRefE_proj c fresh g fuel a b d, unionOwnE_proj c fresh g fuel a b d, diffRefE_proj c fresh g fuel a b d,
+   diffOwnE_proj c fresh g fuel a b d⟩
+
+/-- every `insert` (every layout, every growth / conversion / placeholder branch, any nesting of rebuilds, every
+generator outcome): run against an allocator ledger that holds the set's block — and anything else `L` —, every
+call is legal and the ledger ends holding exactly the resulting set's block and `L`.  In particular the old block
+is released exactly once, with the size recomputed from its header, after the new one was obtained. -/
+theorem insert_calls_balanced (fresh : Bool) (g : Rng D) (fuel : Nat) {r : Rp} {e : Nat} {d d' : D} {res : Rp × Bool}
+    {evs : List Ev} (h : insertE c fresh g fuel r e d = .ok ((res, evs), d')) (L : List Nat) :
+    runEv (owned c r ++ L) evs = some (owned c res.1 ++ L) :=
+  (insertE_balanced fresh g fuel).ok h L
+/-- `remove` (an inline set is rebuilt by `collect`; a table or bitmap keeps its block) -/
+theorem remove_calls_balanced (fresh : Bool) (g : Rng D) (fuel : Nat) {r : Rp} {e : Nat} {d d' : D} {res : Rp × Bool}
+    {evs : List Ev} (h : removeE c fresh g fuel r e d = .ok ((res, evs), d')) (L : List Nat) :
+    runEv (owned c r ++ L) evs = some (owned c res.1 ++ L) :=
+  removeE_balanced_ok fresh g fuel h L
+/-- `collect()` starts with nothing and ends owning exactly the result's block -/
+theorem collect_calls_balanced (fresh : Bool) (g : Rng D) (fuel : Nat) {xs : List Nat} {d d' : D} {r : Rp}
+    {evs : List Ev} (h : fromIterE c fresh g fuel xs d = .ok ((r, evs), d')) (L : List Nat) :
+    runEv L evs = some (owned c r ++ L) :=
+  fromIterE_balanced fresh g fuel h L
+
+/-- **programs**: any sequence of insert / remove / extend / collect / clone / with_capacity_of / hinted
+constructors / drop (of a set, or of the consuming or draining iterator made from it) / the four operator forms
+over any number of simultaneously live sets, for every generator: whenever the ledger holds exactly the live
+sets' blocks before an operation, every call of the operation is legal and the ledger holds exactly the live
+sets' blocks afterwards -/
+theorem step_keeps_ledger (fresh : Bool) (g : Rng D) (fuel : Nat) {s s' : Slots} {op : POp} {d d' : D} {evs : List Ev}
+    (h : pstep c fresh g fuel s op d = .ok ((s', evs), d')) {L : List Nat} (hL : L.Perm (ownedAll c s)) :
+    ∃ L', runEv L evs = some L' ∧ L'.Perm (ownedAll c s') :=
+  pstep_ledger fresh g fuel h hL
+theorem program_keeps_ledger (fresh : Bool) (g : Rng D) (fuel : Nat) (ops : List POp) {s s' : Slots} {d d' : D}
+    {evs : List Ev} (h : prun c fresh g fuel s ops d = .ok ((s', evs), d')) {L : List Nat} (hL : L.Perm (ownedAll c s)) :
+    ∃ L', runEv L evs = some L' ∧ L'.Perm (ownedAll c s') :=
+  prun_ledger fresh g fuel ops h hL
+/-- … and from an empty heap, after the program and the drop of every set, nothing is live: every block obtained
+was released exactly once, with its size -/
+theorem program_releases_everything (fresh : Bool) (g : Rng D) (fuel n : Nat) (ops : List POp) {s' : Slots} {d d' : D}
+    {evs : List Ev} (h : prun c fresh g fuel (List.replicate n .empty) ops d = .ok ((s', evs), d')) :
+    runEv [] (evs ++ dropAll c s') = some [] :=
+  program_balanced fresh g fuel n ops h
+
+/-- the ledger rejects what the property forbids: a second release of the same block, a release with another
+size, a release of something never obtained -/
+example : runEv [] [.alloc 40, .free 40, .free 40] = none := by decide
+example : runEv [] [.alloc 40, .free 48] = none := by decide
+example : runEv [] [.alloc 40, .realloc 48 64] = none := by decide
+example : runEv [] [.alloc 40] = some [40] := by decide      -- a leak is visible as a non-empty ledger
+
+end calls
+
+/-- the allocator is called directly in exactly the functions the event reading accounts for (read off the current
+source by the translator), with the alignment of the model -/
+theorem alloc_sites_match : Gen.allocSites64 = allocSites true ∧ Gen.allocSites32 = allocSites false ∧
+    Gen.allocSitesOther = [] ∧ (alignBytes cfg64, alignBytes cfg32) = (Gen.layout64.2.2, Gen.layout32.2.2) :=
+  ⟨allocSites64_match, allocSites32_match, allocSitesOther_none, align_match⟩
+
+theorem program_releases_everything_u64 {D : Type} (g : Rng D) (fuel n : Nat) (ops : List POp) {s' : Slots} {d d' : D}
+    {evs : List Ev} (h : prun cfg64 true g fuel (List.replicate n .empty) ops d = .ok ((s', evs), d')) :
+    runEv [] (evs ++ dropAll cfg64 s') = some [] := program_balanced true g fuel n ops h
+theorem program_releases_everything_u32 {D : Type} (g : Rng D) (fuel n : Nat) (ops : List POp) {s' : Slots} {d d' : D}
+    {evs : List Ev} (h : prun cfg32 false g fuel (List.replicate n .empty) ops d = .ok ((s', evs), d')) :
+    runEv [] (evs ++ dropAll cfg32 s') = some [] := program_balanced false g fuel n ops h
+
+/-- a concrete program (SetU64, scripted draws): an insert that leaves the word, a clone, growth of the clone,
+a borrowed union, drops — its calls, in order -/
+example : (match prun cfg64 true scriptRng 6 (List.replicate 3 .empty)
+      [.ins 0 (2 ^ 63), .clone 1 0, .ins 1 5, .ins 1 (2 ^ 62 + 1), .uniRef 2 0 1, .drop 0] [7, 7, 7, 7, 7, 7] with
+    | .ok ((_, evs), _) => evs
+    | .error _ => []) =
+    [.alloc 32, .alloc 32, .alloc 48, .free 32, .alloc 48, .free 32] := by decide +kernel
+/-- SetU32: an inline set that leaves the word for a bitmap, grown in place (`realloc`), cloned, the clone converted, a by-value difference -/
+example : (match prun cfg32 false scriptRng 6 (List.replicate 2 .empty)
+      [.ins 0 0, .ins 0 1, .ins 0 2, .ins 0 3, .ins 0 4, .ins 0 5, .ins 0 6, .ins 0 200, .clone 1 0, .ins 1 (2 ^ 31),
+       .difOwn 0 1 0, .drop 0] [7, 7, 7, 7, 7, 7] with
+    | .ok ((_, evs), _) => evs
+    | .error _ => []) =
+    [.alloc 16, .realloc 16 44, .alloc 44, .alloc 80, .free 44, .free 44, .free 80] := by decide +kernel
 
 /-! ### instances -/
 
